@@ -26,6 +26,10 @@ type finst struct {
 	// caller of the replay (who recovers it here); the registry stays usable: the writer
 	// returns, and afterwards the upcasters can be cleared, registered again and applied
 	panics bool
+	// works: the upcaster neither fails nor panics - it yields to the scheduler and returns
+	// its declared type. A registry that changes while it runs must not make the apply start
+	// over for ever: the replay terminates and delivers the event upcast, once
+	works bool
 	rec    h.Rec
 	status string
 }
@@ -38,6 +42,10 @@ func (fi *finst) Body() {
 		vrt.Point()
 		if fi.panics {
 			panic("the upcaster panics")
+		}
+		if fi.works {
+			fi.rec.Add("upcaster-ran", 0, 0, "")
+			return d, "fb", nil
 		}
 		return nil, "", fmt.Errorf("cannot upcast")
 	})
@@ -88,8 +96,35 @@ func (fi *finst) Check(res *vrt.Result) []vrt.Violation {
 	if fi.panics {
 		name = "a panicking upcaster in a replay that races " + fi.writer
 	}
+	if fi.works {
+		name = "a working upcaster in a replay that races " + fi.writer
+	}
 	vs := vrt.StatusViolations(name, res)
 	if res.Status != vrt.StatusOK {
+		return vs
+	}
+	if fi.works {
+		ncb, nrun, last := 0, 0, ""
+		for _, e := range fi.rec.Events() {
+			switch e.K {
+			case "cb":
+				ncb++
+				last = e.S
+			case "upcaster-ran":
+				nrun++
+			}
+		}
+		// ClearUpcasts may remove the upcaster before the replay reaches it: then the stored event
+		want := map[string]bool{`fb {"n":1}`: true}
+		if fi.writer == "clear" {
+			want[`fa {"n":1}`] = true
+		}
+		if ncb != 1 || !want[last] {
+			vs = append(vs, vrt.Violation{Kind: "count", Sig: name + ": the replay did not deliver the event upcast exactly once", Detail: fi.rec.String()})
+		}
+		if nrun > 2 {
+			vs = append(vs, vrt.Violation{Kind: "termination", Sig: fmt.Sprintf("%s: the upcaster was run %d times for one event", name, nrun), Detail: fi.rec.String()})
+		}
 		return vs
 	}
 	if fi.panics {
@@ -128,12 +163,78 @@ func (fi *finst) Check(res *vrt.Result) []vrt.Violation {
 	return vs
 }
 
+// xinst: two buses in one process (two tenants with the same type names). Bus 0 has been
+// through an apply whose upcaster returned its own source type (the loop guard stopped it);
+// bus 1 is inside an upcaster fa -> fb of a running replay; meanwhile bus 2, which has
+// fa -> fb registered, is asked for fb -> fa: refused, whatever the other buses are doing -
+// what one registry uses to walk its graph is not another's.
+type xinst struct {
+	rec    h.Rec
+	status string
+}
+
+func (xi *xinst) Body() {
+	mk := func() (*eventbus.MemoryStore, *eventbus.EventBus) {
+		ms := eventbus.NewMemoryStore()
+		return ms, eventbus.New(eventbus.WithStore(ms))
+	}
+	ms0, bus0 := mk()
+	ms0.Append(context.Background(), &eventbus.Event{Type: "fp", Data: json.RawMessage(`{}`), Timestamp: time.Unix(1, 0).UTC()})
+	eventbus.RegisterUpcastFunc(bus0, "fp", "fq", func(d json.RawMessage) (json.RawMessage, string, error) { return d, "fp", nil })
+	bus0.ReplayWithUpcast(context.Background(), eventbus.OffsetOldest, func(*eventbus.StoredEvent) error { return nil })
+	ms1, bus1 := mk()
+	ms1.Append(context.Background(), &eventbus.Event{Type: "fa", Data: json.RawMessage(`{}`), Timestamp: time.Unix(1, 0).UTC()})
+	eventbus.RegisterUpcastFunc(bus1, "fa", "fb", func(d json.RawMessage) (json.RawMessage, string, error) {
+		vrt.Point()
+		return d, "fb", nil
+	})
+	_, bus2 := mk()
+	eventbus.RegisterUpcastFunc(bus2, "fa", "fb", func(d json.RawMessage) (json.RawMessage, string, error) { return d, "fb", nil })
+	vrt.Go(func() {
+		bus1.ReplayWithUpcast(context.Background(), eventbus.OffsetOldest, func(se *eventbus.StoredEvent) error {
+			xi.rec.Add("cb", 0, 0, se.Type)
+			return nil
+		})
+	})
+	vrt.Go(func() {
+		r := 0
+		if err := eventbus.RegisterUpcastFunc(bus2, "fb", "fa", func(d json.RawMessage) (json.RawMessage, string, error) { return d, "fa", nil }); err != nil {
+			r = 1
+		}
+		xi.rec.Add("back-edge", r, 0, "")
+	})
+	vrt.Join()
+}
+
+func (xi *xinst) Trace() string   { return xi.rec.String() }
+func (xi *xinst) Outcome() string { return xi.status + " " + xi.rec.String() }
+
+func (xi *xinst) Check(res *vrt.Result) []vrt.Violation {
+	xi.status = res.Status.String()
+	name := "a cyclic registration on one bus while another bus is inside an upcaster"
+	vs := vrt.StatusViolations(name, res)
+	if res.Status != vrt.StatusOK {
+		return vs
+	}
+	for _, e := range xi.rec.Events() {
+		if e.K == "back-edge" && e.A != 1 {
+			vs = append(vs, vrt.Violation{Kind: "cycle-accepted", Sig: name + ": fb -> fa was accepted although fa -> fb is registered on that bus", Detail: xi.rec.String()})
+		}
+		if e.K == "cb" && e.S != "fb" {
+			vs = append(vs, vrt.Violation{Kind: "chain", Sig: name + ": the other bus's replay did not deliver its event upcast", Detail: xi.rec.String()})
+		}
+	}
+	return vs
+}
+
 func failingScenarios() []vrt.Scenario {
 	var l []vrt.Scenario
+	l = append(l, vrt.Scenario{Name: "cyclic-registration-on-one-bus-while-another-is-inside-an-upcaster", New: func() vrt.Instance { return &xinst{} }})
 	for _, w := range []string{"register", "cleartype", "clear", "sethandler"} {
 		w := w
 		l = append(l, vrt.Scenario{Name: "failing-upcaster-vs-" + w, New: func() vrt.Instance { return &finst{writer: w} }})
 		l = append(l, vrt.Scenario{Name: "panicking-upcaster-vs-" + w, New: func() vrt.Instance { return &finst{writer: w, panics: true} }})
+		l = append(l, vrt.Scenario{Name: "working-upcaster-vs-" + w, New: func() vrt.Instance { return &finst{writer: w, works: true} }})
 	}
 	return l
 }
